@@ -13,6 +13,15 @@ ASSUME = [
 def run_generated(ctx, prop, module, rule, must_accept=True, post=None, level="translation_validation", extra_cov=None,
                   prepare=None, il_subs=None, c_subs=None):
     progs, g = tvcheck.generate(module, ctx.seed, ctx.tier)
+    sub_errors = {}
+    if isinstance(progs, dict):
+        gen_subs = progs.get("subs", [])
+        progs = progs["programs"]
+        il_subs, c_subs, reg, sub_errors, _ = tvcheck.prepare_subs(gen_subs)
+        for p in progs:
+            p["subs"] = reg
+        for n, e in sub_errors.items():
+            ctx.violation("generated/bundled sub-routine %s cannot be registered or read: %s" % (n, str(e)[:200]), {"kind": "sub", "name": n})
     if ctx.replay:
         rp = json.load(open(ctx.replay))
         pid = rp.get("program", {}).get("id")
